@@ -83,7 +83,8 @@ def fixNs : Nat → NsHeap → Nat → Option Nat → Option Nat → NsHeap
     let H1 := match par with
       | none => H
       | some r =>
-        if (H.cell r).same (H.nsmapOf n) then H.setNs n r          -- `node.nsmap = nsmap`: share the parent's object
+        -- `if nsmap == node.nsmap:` (one object compares equal to itself) → `node.nsmap = nsmap`: share the parent's object
+        if r == H.ns n || (H.cell r).same (H.nsmapOf n) then H.setNs n r
         else (H.cell r).foldl (fixBind n) H
     (H.kids n).foldl (fun Hc c =>
       -- `if id(child.nsmap) == nsmap_id:` (never true while `nsmap_id` is None)
